@@ -5,10 +5,12 @@ from gen.util import kvs, tparse
 # ----------------------------------------------------------------------------- configuration
 
 def delay_fn(cfg):
-    """header -> (max, delay(n) for attempt number n >= 1), exactly as the adapter builds the layer"""
+    """header -> (max, delay(n) in MICROSECONDS for attempt number n >= 1), exactly as the adapter builds the layer
+    (`unit=us`: d and ds are microseconds; default milliseconds)"""
     mx = max(int(cfg.get("max", "2")), 1)
-    d = int(cfg.get("d", "0"))
-    ds = [int(x) for x in cfg.get("ds", "").split(",") if x.isdigit()]
+    mul = 1 if cfg.get("unit", "ms") == "us" else 1000
+    d = int(cfg.get("d", "0")) * mul
+    ds = [int(x) * mul for x in cfg.get("ds", "").split(",") if x.isdigit()]
     kind = cfg.get("kind", "fixed")
 
     def delay(n):
@@ -18,6 +20,10 @@ def delay_fn(cfg):
             return ds[n - 1] if 1 <= n <= len(ds) else d
         return d
     return mx, delay
+
+
+def us_text(us):
+    return "%dms" % (us // 1000) if us % 1000 == 0 else "%dus" % us
 
 
 def plan_of(op):
@@ -50,11 +56,34 @@ def _outcome(rng, w_ok, w_err, w_panic, w_never):
     return "never"
 
 
+def _us_delay(rng, base):
+    """a delay in microseconds: zero, below the timer's resolution, around it, whole and broken milliseconds"""
+    return rng.choice([0, 1, 500, 999, 1000, 1001, 1500, 2000, base * 1000, base * 1000 + rng.randint(1, 999),
+                       rng.randint(1, 999), rng.randint(1, 30) * 1000, rng.randint(1, 2999)])
+
+
 def gen(rng, tier):
     mx = rng.choice([1, 2, 2, 2, 3, 3, 3, 4, 5])
     r = rng.random()
     base = rng.choice([1, 5, 10, 10, 20, rng.randint(2, 40)])
-    if r < 0.50:
+    if rng.random() < 0.16:
+        # microsecond-resolution delays (`unit=us`): the timer fires at the next whole millisecond
+        if r < 0.45:
+            du = max(1, _us_delay(rng, base)) if rng.random() < 0.9 else 0
+            header = "hedge max=%d d=%d kind=fixed unit=us" % (mx, du)
+            dsu = [du] * 8
+        else:
+            n = rng.randint(0, mx)
+            lst = [_us_delay(rng, base) for _ in range(n)]
+            if lst and rng.random() < 0.8:
+                lst[0] = max(lst[0], rng.choice([1, 500, 999]))      # mostly latency mode, often by a sub-millisecond delay
+            dflt = _us_delay(rng, base)
+            header = "hedge max=%d kind=fn ds=%s d=%d unit=us" % (mx, ",".join(map(str, lst)), dflt)
+            dsu = lst + [dflt] * 8
+        ds = [(x + 999) // 1000 for x in dsu]
+        if ds[0] == 0 and dsu[0] > 0:
+            ds[0] = 1
+    elif r < 0.50:
         header = "hedge max=%d d=%d kind=fixed" % (mx, base)
         ds = [base] * 8
     elif r < 0.58:
@@ -72,6 +101,7 @@ def gen(rng, tier):
         header = "hedge max=%d kind=fn ds=%s d=%d" % (mx, ",".join(map(str, lst)), dflt)
         ds = lst + [dflt] * 8
     parallel = ds[0] == 0 or mx == 1
+    warmy = mx > 1 and rng.random() < 0.28     # fresh clones of the inner service that are not ready at once
     ties = rng.random() < 0.25
     fail_heavy = rng.random() < 0.45
     exotic = rng.random() < 0.18           # panic / never outcomes (outside the property's quantifier, modelled anyway)
@@ -110,21 +140,47 @@ def gen(rng, tier):
             steps.append((lat, o))
         return steps
 
+    def mkwarm(p):
+        """readiness plan of the hedges' fresh clones: ready at once / after a while (before, at, after the instant an
+        earlier attempt completes or the next hedge is due) / never; possibly shorter than the number of hedges"""
+        if not warmy:
+            return []
+        lat0 = p[0][0] if p else 0
+        ws = []
+        for i in range(1, mx):
+            if rng.random() < 0.2:
+                break
+            off = offs[i] if i < len(offs) else 0
+            ws.append(rng.choice([0, 1, base, 2 * base, max(0, lat0 - off - 1), max(0, lat0 - off), max(0, lat0 - off) + 1,
+                                  max(0, lat0 - off) + rng.randint(1, 40), rng.randint(1, 60), rng.randint(1, 60), "never"]))
+        return ws
+
+    def arrive_op(c, p, ws):
+        op = "arrive %d inner=%s" % (c, ",".join("%d:%s" % s for s in p))
+        if ws:
+            op += " warm=" + ",".join(str(x) for x in ws)
+        return op
+
+    def add_marks(p, ws):
+        for i, off in enumerate(offs):
+            marks.append(now + off)
+            w = ws[i - 1] if 1 <= i <= len(ws) and ws[i - 1] != "never" else 0
+            marks.append(now + off + w)
+            marks.append(now + off + w + (p[i][0] if i < len(p) else 0))
+
     nsteps = rng.randint(6, 40)
     for _ in range(nsteps):
         r = rng.random()
         if pending and (r < 0.2 or not arrived):
             c = pending.pop(0)
             p = mkplan()
+            ws = mkwarm(p)
             plans[c] = p
-            ops.append("arrive %d inner=%s" % (c, ",".join("%d:%s" % s for s in p)) if p else "arrive %d inner=" % c)
+            ops.append(arrive_op(c, p, ws))
             arrived.append(c)
             if rng.random() < 0.8:
                 ops.append("poll %d" % c)
-                for i, off in enumerate(offs):
-                    marks.append(now + off)
-                    lat = p[i][0] if i < len(p) else 0
-                    marks.append(now + off + lat)
+                add_marks(p, ws)
         elif r < 0.40 and arrived:
             ops.append("poll %d" % rng.choice(arrived))
         elif r < 0.44 and arrived:
@@ -146,13 +202,12 @@ def gen(rng, tier):
     if rng.random() < 0.85:
         for c in pending:
             p = mkplan()
+            ws = mkwarm(p)
             plans[c] = p
-            ops.append("arrive %d inner=%s" % (c, ",".join("%d:%s" % s for s in p)))
+            ops.append(arrive_op(c, p, ws))
             ops.append("poll %d" % c)
-            for i, off in enumerate(offs):
-                marks.append(now + off)
-                marks.append(now + off + (p[i][0] if i < len(p) else 0))
-        for _ in range(14):
+            add_marks(p, ws)
+        for _ in range(18 if warmy else 14):
             fut = sorted(set(m for m in marks if m > now))
             if not fut:
                 break
@@ -180,7 +235,10 @@ class View:
             w = o.split()
             if w and w[0] == "arrive" and len(w) > 1 and w[1] not in self.plans:
                 self.plans[w[1]] = plan_of(o)
-        self.calls = {}       # c -> [(pos, t, k)]
+        self.calls = {}       # c -> [(pos, t, k)] in call order
+        self.warms = {}       # c -> {attempt number: (pos, t)}: first readiness poll of the fresh clone of a hedge
+        self.att = {}         # serial -> attempt number of that inner call (harness: `#att c k i`)
+        self.held = []        # (pos, c, t, k): the caller polled c at t, attempt k had succeeded before, c stayed pending
         self.done = {}        # k -> (pos, t, out)
         self.result = {}      # c -> (pos, t, text)
         self.fp = {}
@@ -192,21 +250,39 @@ class View:
                 self.fp[ws[1]] = int(ws[2])
             elif ws[0] == "#drop" and pos >= 0:
                 self.dropped[ws[1]] = pos
+            elif ws[0] == "#att":
+                self.att[ws[2]] = int(ws[3])
+            elif ws[0] == "#held" and pos >= 0:
+                self.held.append((pos, ws[1], int(ws[2]), ws[3]))
         for i, l in enumerate(lines):
             t, w = tparse(l)
             if not w:
                 continue
             if w[0] == "inner_call":
                 self.calls.setdefault(w[1], []).append((i, t, w[2]))
+            elif w[0] == "inner_warm":
+                self.warms.setdefault(w[1], {}).setdefault(int(w[2]), (i, t))
             elif w[0] == "inner_done":
                 self.done[w[2]] = (i, t, w[3])
             elif w[0] == "result":
                 self.result[w[1]] = (i, t, w[2])
 
     def attempts(self, c):
-        """[(number, pos, t, serial, (lat, scripted outcome))] in start order"""
+        """inner calls of request c in call order: [(attempt number, pos, t, serial, (lat, scripted outcome))];
+        the scripted inner service hands out the script steps in call order"""
         p = self.plans.get(c, [])
-        return [(i, pos, t, k, script(p, i)) for i, (pos, t, k) in enumerate(self.calls.get(c, []))]
+        return [(self.att.get(k, j), pos, t, k, script(p, j)) for j, (pos, t, k) in enumerate(self.calls.get(c, []))]
+
+    def starts(self, c):
+        """attempts of request c that were started, by attempt number: [(number, pos, t)] — a hedge is started when
+        its task is spawned, seen as the first readiness poll of its fresh clone (`inner_warm`) when the clone has
+        a readiness plan, else as its inner call (a clone that is ready at once is called in the same step)"""
+        st = {}
+        for (i, pos, t, k, _) in self.attempts(c):
+            st[i] = (pos, t)
+        for i, (pos, t) in self.warms.get(c, {}).items():
+            st[i] = (pos, t)
+        return [(i,) + st[i] for i in sorted(st)]
 
 
 def mon_bounded(case, lines, meta):
@@ -215,22 +291,28 @@ def mon_bounded(case, lines, meta):
         if len(cs) > v.max:
             return "request %s: %d inner calls started, max_hedged_attempts=%d (line %d: %s)" % (
                 c, len(cs), v.max, cs[v.max][0], lines[cs[v.max][0]])
+        st = v.starts(c)
+        if len(st) > v.max or (st and st[-1][0] >= v.max):
+            return "request %s: attempt number %d started, max_hedged_attempts=%d" % (c, st[-1][0], v.max)
     return None
 
 
 def mon_spaced(case, lines, meta):
+    """instants are whole milliseconds, delays microseconds: `delay` after t means at or after t*1000 + delay us"""
     v = View(case, lines, meta)
     for c in v.calls:
-        at = v.attempts(c)
-        for (i, pos, t, k, _), (_, _, tp, _, _) in zip(at[1:], at[:-1]):
+        st = v.starts(c)
+        for (i, pos, t), (ip, _, tp) in zip(st[1:], st[:-1]):
+            if i != ip + 1:
+                return "request %s: attempt %d was started but attempt %d never was" % (c, i, i - 1)
             if v.parallel:
                 if t != tp:
                     return "request %s (parallel mode): attempt %d started at t=%d, attempt %d at t=%d, not at once" % (c, i, t, i - 1, tp)
-            elif t < tp + v.delay(i):
-                return "request %s: attempt %d started at t=%d, less than delay(%d)=%d after attempt %d (t=%d)" % (
-                    c, i, t, i, v.delay(i), i - 1, tp)
-        if at and c in v.fp and at[0][2] != v.fp[c]:
-            return "request %s: primary started at t=%d, first polled at t=%d" % (c, at[0][2], v.fp[c])
+            elif t * 1000 < tp * 1000 + v.delay(i):
+                return "request %s: attempt %d started at t=%dms, less than delay(%d)=%s after attempt %d (t=%dms)" % (
+                    c, i, t, i, us_text(v.delay(i)), i - 1, tp)
+        if st and c in v.fp and st[0][2] != v.fp[c]:
+            return "request %s: primary started at t=%d, first polled at t=%d" % (c, st[0][2], v.fp[c])
     return None
 
 
@@ -259,6 +341,24 @@ def mon_first_success(case, lines, meta):
     return None
 
 
+def mon_success_at_once(case, lines, meta):
+    """"... resolves with the first successful attempt's response as soon as it is available": a poll of the call by
+    its caller after one of its attempts has completed successfully must resolve it (the harness records a poll that
+    did not: `#held c t k`; checked here against the log: attempt k is an attempt of c, completed ok before that poll,
+    and the call had no result yet)"""
+    v = View(case, lines, meta)
+    for (pos, c, t, k) in v.held:
+        mine = [a for a in v.attempts(c) if a[3] == k]
+        if not mine or k not in v.done or v.done[k][2] != "ok" or v.done[k][0] >= pos:
+            return "harness marker '#held %s %d %s' does not match the log" % (c, t, k)
+        if c in v.result and v.result[c][0] < pos:
+            continue
+        when = ("resolved only at t=%d (%s)" % (v.result[c][1], v.result[c][2])) if c in v.result else "never resolved in this case"
+        return ("request %s: attempt %d (serial %s) completed successfully at t=%d, the caller polled the call at t=%d "
+                "and it stayed pending; it %s" % (c, mine[0][0], k, v.done[k][1], t, when))
+    return None
+
+
 def mon_all_failed(case, lines, meta):
     v = View(case, lines, meta)
     for c, (rpos, rt, text) in v.result.items():
@@ -267,7 +367,8 @@ def mon_all_failed(case, lines, meta):
         at = v.attempts(c)
         started = [a for a in at if a[1] < rpos]
         if len(started) != v.max:
-            return "request %s reported all-attempts-failed at t=%d with %d of %d attempts started" % (c, rt, len(started), v.max)
+            return "request %s reported all-attempts-failed at t=%d with %d of %d attempts having called the inner service" % (
+                c, rt, len(started), v.max)
         for (i, pos, t, k, (lat, out)) in started:
             if out == "ok" or out == "never":
                 return "request %s reported all-attempts-failed at t=%d although attempt %d (serial %s) is scripted %s (latency %d, started t=%d)" % (
@@ -283,13 +384,15 @@ def mon_all_failed(case, lines, meta):
 
 
 def mon_no_late_start(case, lines, meta):
+    """no attempt is started after the result / the cancellation (an attempt started before, whose clone was still
+    warming up, may call the inner service later: its task is detached)"""
     v = View(case, lines, meta)
-    for c, cs in v.calls.items():
-        for (pos, t, k) in cs:
+    for c in v.calls:
+        for (i, pos, t) in v.starts(c):
             if c in v.result and pos > v.result[c][0]:
-                return "request %s: inner call %s started (line %d) after its result (line %d)" % (c, k, pos, v.result[c][0])
+                return "request %s: attempt %d started (line %d) after its result (line %d)" % (c, i, pos, v.result[c][0])
             if c in v.dropped and pos >= v.dropped[c]:
-                return "request %s: inner call %s started (line %d) after the call future was dropped" % (c, k, pos)
+                return "request %s: attempt %d started (line %d) after the call future was dropped" % (c, i, pos)
     return None
 
 
@@ -322,24 +425,58 @@ def transitions(case, lines, meta=None):
     resolved = set()
     done_at = {}
     errs = {}
+    att = {}
+    for _, m in (meta or []):
+        ws = m.split()
+        if ws[0] == "#att":
+            att[ws[2]] = int(ws[3])
+    waiting = {}      # (c, attempt number) -> instant its clone started warming up
+    listed = set()    # (c, attempt number) of the hedges whose clone has a readiness plan entry
+    if 0 < delay(1) < 1000 and mx > 1:
+        tags.append("mode-latency-sub-ms")
+
+    def started(c, n):
+        if parallel:
+            tags.append("start-parallel")
+        else:
+            tags.append("start-hedge")
+            if errs.get(c, 0) > 0:
+                tags.append("start-hedge-after-error")
+            if delay(n) == 0:
+                tags.append("start-hedge-zero-delay")
+            elif delay(n) % 1000 != 0:
+                tags.append("start-hedge-broken-ms-delay")
     for l in lines:
         t, w = tparse(l)
         if not w:
             continue
-        if w[0] == "inner_call":
-            n = ncalls.get(w[1], 0)
-            ncalls[w[1]] = n + 1
+        if w[0] == "inner_warm":
+            started(w[1], int(w[2]))
+            listed.add((w[1], int(w[2])))
+            if w[3] == "0":
+                tags.append("clone-ready-at-once")
+            else:
+                waiting[(w[1], int(w[2]))] = t
+                tags.append("clone-never-ready" if w[3] == "never" else "clone-warming")
+        elif w[0] == "inner_call":
+            j = ncalls.get(w[1], 0)
+            ncalls[w[1]] = j + 1
+            n = att.get(w[2], j)
             owner[w[2]] = (w[1], n)
             if n == 0:
                 tags.append("start-primary")
-            elif parallel:
-                tags.append("start-parallel")
+            elif (w[1], n) in waiting:
+                del waiting[(w[1], n)]
+                tags.append("call-after-warm-up")
+                if n != j:
+                    tags.append("call-out-of-attempt-order")
+                if w[1] in resolved:
+                    tags.append("call-after-result")
             else:
-                tags.append("start-hedge")
-                if errs.get(w[1], 0) > 0:
-                    tags.append("start-hedge-after-error")
-                if delay(n) == 0:
-                    tags.append("start-hedge-zero-delay")
+                if n != j:
+                    tags.append("call-out-of-attempt-order")
+                if (w[1], n) not in listed:
+                    started(w[1], n)
         elif w[0] == "inner_done":
             c = w[1]
             kind = "ok" if w[3] == "ok" else "panic" if w[3] == "panic" else "err"
@@ -358,6 +495,8 @@ def transitions(case, lines, meta=None):
                 tags.append("result-ok-primary" if n == 0 else "result-ok-hedge")
                 if errs.get(w[1], 0) > 0:
                     tags.append("result-ok-after-error")
+                if any(c == w[1] for (c, _) in waiting):
+                    tags.append("result-ok-while-clone-warming")
             elif w[2].startswith("err:all_failed"):
                 tags.append("result-all_failed-parallel" if parallel else "result-all_failed-latency")
             elif w[2] == "panic":
@@ -374,8 +513,10 @@ def nontrivial(case, lines, tags):
 
 LEVEL_NOTE = ("Trusted: Lean kernel; the transcription in TR.Model.Hedge of tokio's spawn (tasks spawned by a poll run right after it, "
               "in spawn order), mpsc (FIFO, closed when every sender is gone), biased select! and sleep (a zero sleep is ready at once), "
-              "validated only by the sampled correspondence check; the order in which simultaneously due attempts complete is taken "
-              "from the implementation as an observed choice (checked to be a permutation of the due attempts in deadline order); the "
+              "validated only by the sampled correspondence check; tokio's timer resolution (a deadline is rounded up to the next "
+              "millisecond: a delay of d microseconds armed at a whole-millisecond instant fires ceil(d/1000) ms later) as transcribed in "
+              "timerMs; the order in which simultaneously elapsed timers complete attempts / make waiting clones ready is taken "
+              "from the implementation as an observed choice (checked to be a permutation of what is due, in deadline order); the "
               "harness (virtual clock, manual poller, scripted inner service) and the python diff. Not verified: that a waiting caller "
               "is woken (observed by the harness's waker monitor only); detached attempts keep running after the result (by design).")
 
@@ -385,11 +526,15 @@ SPECS = {
         "module": "TR.Props.C12",
         "gen": gen,
         "monitors": [("c12-starts-bounded", mon_bounded), ("c12-starts-spaced", mon_spaced),
-                     ("c12-first-success-wins", mon_first_success), ("c12-all-failed-only-when-all-failed", mon_all_failed),
+                     ("c12-first-success-wins", mon_first_success), ("c12-success-at-once", mon_success_at_once),
+                     ("c12-all-failed-only-when-all-failed", mon_all_failed),
                      ("c12-no-late-start", mon_no_late_start), ("c12-script-and-wakeups", mon_script)],
         "transitions": transitions,
         "nontrivial": nontrivial,
         "all_transitions": ["start-primary", "start-hedge", "start-parallel", "start-hedge-after-error", "start-hedge-zero-delay",
+                            "mode-latency-sub-ms", "start-hedge-broken-ms-delay", "clone-ready-at-once", "clone-warming",
+                            "clone-never-ready", "call-after-warm-up", "call-out-of-attempt-order", "call-after-result",
+                            "result-ok-while-clone-warming",
                             "done-ok", "done-err", "done-panic", "done-after-result", "done-tie",
                             "result-ok-primary", "result-ok-hedge", "result-ok-after-error",
                             "result-all_failed-latency", "result-all_failed-parallel", "result-panic"],
@@ -397,24 +542,31 @@ SPECS = {
         "lean_files": ["TR.Model.Hedge", "TR.Lemmas.Hedge"],
         "sizes": (600, 40000),
         "rule": "seeded random op sequences (arrive/poll/drop/adv/settle) over 1..3 requests, max_hedged_attempts 1..5, fixed / zero / "
-                "immediate / per-attempt delays, per-attempt scripts (latency, ok/err, a share with panic/never), latencies biased to "
+                "immediate / per-attempt delays (a sixth of the cases with microsecond resolution: 0, 1..999 us, 1000, 1001, broken and "
+                "whole milliseconds mixed per attempt), in a quarter of the multi-attempt cases fresh clones of the inner service that "
+                "are ready only after a while (before/at/after the instant an earlier attempt completes) or never, "
+                "per-attempt scripts (latency, ok/err, a share with panic/never), latencies biased to "
                 "0, delay-1, delay, delay+1 and (in a quarter of the cases) chosen so that several attempts complete at one instant; "
                 "advances land on start/completion instants -1/0/+1, late polls included; distinct = distinct implementation event log; "
                 "non-trivial = a hedge or parallel attempt was started, all-attempts-failed, a success after an error, or a completion "
                 "after the result",
-        "level_text": "Theorems TR.Props.C12.{starts_bounded,starts_bounded_trace,starts_spaced,starts_spaced_indexed,first_success_wins,"
+        "level_text": "Theorems TR.Props.C12.{starts_bounded,starts_bounded_trace,starts_spaced,starts_spaced_indexed,positive_delay_separates,first_success_wins,"
                       "first_success_at_once,success_is_queued,all_failed_only_when_all_failed,no_late_start,no_start_when_finished,"
                       "instants_sound,log_matches_attempts,record_unique}: "
-                      "for every max_hedged_attempts >= 1, every delay function (fixed, zero, per-attempt), every operation sequence (all "
-                      "poll/advance/cancel orders, any number of concurrent requests) and every script of latencies and outcomes, in the model "
+                      "for every max_hedged_attempts >= 1, every delay function in microseconds (fixed, zero, per-attempt, below the timer's "
+                      "millisecond resolution or not), every operation sequence (all poll/advance/cancel orders, any number of concurrent "
+                      "requests), every script of latencies and outcomes and every readiness plan of the hedges' fresh clones, in the model "
                       "of execute_with_hedging; proved by an inductive per-request invariant. The model is tied to the real HedgeLayer by "
                       "line-for-line agreement of event logs on generated schedules.",
         "level_note": LEVEL_NOTE,
         "trusted": ["tokio spawn/mpsc/select!/sleep semantics as transcribed in TR.Model.Hedge (sampled by the correspondence check)",
-                    "completion order of simultaneously due attempts taken from the implementation (allowed set: permutations in deadline order)",
+                    "tokio timer resolution: deadlines rounded up to the millisecond (timerMs), instants are whole milliseconds in the harness",
+                    "order of completions / clone readiness of simultaneously elapsed timers taken from the implementation (allowed set: permutations in deadline order)",
                     "harness: clock_gettime interposition, manual poller, scripted inner service", "python diff/monitors"],
         "assumptions": ["one poll of one call future is atomic and the tasks it spawned run before the next operation (current-thread runtime)",
                         "usize modelled as unbounded Nat; max_hedged_attempts >= 1 (the builder clamps)",
-                        "mode is chosen once from delay(1), as in the code: delay(1)=0 means all attempts at once whatever a per-attempt function says later"],
+                        "mode is chosen once from delay(1), as in the code: delay(1)=0 means all attempts at once whatever a per-attempt function says later",
+                        "an attempt is *started* when its task is spawned; with a fresh clone that is not ready at once the inner call comes later "
+                        "(the spacing and the bound are about starts; the scripted inner service hands out script steps in call order)"],
     },
 }
